@@ -278,3 +278,73 @@ def replay(payload):
     r = work(name, progs[name], {'tier': 'thorough', 'seed': 0})
     hit = [f for f in r['failures'] if f['key'] == rep['key']]
     return {'reproduced': bool(hit), 'failure': hit[:1]}
+
+
+# ---------------------------------------------------------------------------------------------------------------------
+# leading_trivia over line-class strings: exhaustive up to a bound (labelled bounded).  Every line between the bound
+# and the element is one of  E (blank)  C (comment)  K (lone line continuation)  X (code); the selection must never
+# include an X line, must respect the mode and the space limit, and must stay between the bound and the element.
+
+def trivia_classes(payload):
+    import itertools
+    from fst.fst_trivia import leading_trivia
+    quick = payload.get('tier', 'quick') == 'quick'
+    kmax = 5 if quick else 7
+    TEXT = {'E': '   ', 'C': '    # c', 'K': '  \\', 'X': 'code()'}
+    failures, ev = [], 0
+    distinct = set()
+
+    def fail(key, what):
+        if len(failures) < 12:
+            failures.append({'key': f'C04.B.leading_trivia:{key}', 'what': what, 'replayed': True})
+    for k in range(0, kmax + 1):
+        for cls in itertools.product('ECKX', repeat=k):
+            lines = ['b = 1'] + [TEXT[c] for c in cls] + ['    x = 2']
+            ln, col = k + 1, 4
+            bound = (0, len(lines[0]))
+            top_ln = 1
+            modes = ['none', 'all', 'block'] + list(range(0, k + 2))
+            for comments in modes:
+                for space in (False, True, 0, 1, 2, 3):
+                    ev += 1
+                    key = f'{"".join(cls)}:{comments}:{space}'
+                    try:
+                        text_pos, space_pos, indent = leading_trivia(lines, bound[0], bound[1], ln, col, comments, space)
+                    except Exception as e:
+                        fail(key, f'leading_trivia raised {e!r} on classes {"".join(cls)!r}, comments={comments!r}, space={space!r}')
+                        continue
+                    distinct.add((cls, comments, space))
+                    first = min(text_pos[0], space_pos[0]) if space_pos else text_pos[0]
+                    sel = cls[first - 1:ln - 1] if first <= ln else ()
+                    where = f'classes {"".join(cls)!r}, comments={comments!r}, space={space!r}: text {text_pos}, space {space_pos}'
+                    if indent != '    ':
+                        fail(key, f'indent {indent!r}: {where}')
+                    if not ((top_ln, 0) <= tuple(text_pos) <= (ln, col)) or (space_pos and not ((top_ln, 0) <= tuple(space_pos)
+                                                                                              <= tuple(text_pos))):
+                        fail(key, f'position outside [bound, element]: {where}')
+                        continue
+                    if 'X' in sel:
+                        fail(key, f'a code line is part of the selected trivia: {where}')
+                        continue
+                    com = cls[text_pos[0] - 1:ln - 1] if text_pos[0] <= ln and tuple(text_pos) != (ln, col) else ()
+                    if comments == 'none' and tuple(text_pos) != (ln, col):
+                        fail(key, f"comments='none' selects lines above the element: {where}")
+                    if comments == 'block' and any(c != 'C' for c in com):
+                        fail(key, f"comments='block' selects a non-comment line: {where}")
+                    if isinstance(comments, int) and not isinstance(comments, bool) and com and text_pos[0] < max(comments, top_ln):
+                        fail(key, f'comment region starts above the requested line: {where}')
+                    if space_pos:
+                        sp = cls[space_pos[0] - 1:text_pos[0] - 1]
+                        if any(c not in 'EK' for c in sp):
+                            fail(key, f'the space region contains a non-blank line: {where}')
+                        if space is not True and len(sp) > int(space):
+                            fail(key, f'more blank lines than requested: {where}')
+                        if (space is False or space == 0) and sp:
+                            fail(key, f'blank lines returned although none were requested: {where}')
+    return {'name': 'C04.B.leading_trivia_classes', 'evaluations': ev, 'distinct_nontrivial': len(distinct),
+            'rule': f'every string of <= {kmax} lines over the classes blank / comment / continuation / code between a bound '
+                    'and an element x comments in {none, all, block, every line number} x space in {False, True, 0..3}: '
+                    'the real leading_trivia never selects a code line, stays inside [bound, element], respects the '
+                    'mode and the space limit', 'scope': 'exhaustive up to the line bound; element starts its line',
+            'samples': [{'classes': 'ECC', 'comments': 'block', 'space': 1}], 'exhaustive': False, 'failures': failures,
+            'harness_errors': []}
